@@ -121,7 +121,7 @@ def run_case(case: Dict[str, Any], ctx) -> None:
         if not (fr.s_out > 0):
             ctx.violation(key("scalar-not-positive"), f"s={fr.s_out!r}", cfg=cfg, constraint=constraint)
             return
-    stol = 1e-11 if dtype == torch.float64 else tol
+    stol = 1e-11 if dtype == torch.float64 else 2 * tol  # fitted scalars of tiny low-precision tensors are noisy
     if not rel_close(A.s_out, B.s_out, stol):
         ctx.violation(key("scalar-depends-on-data"), f"s_A={A.s_out!r} s_B={B.s_out!r}", cfg=cfg, constraint=constraint,
                       dtype=case["dtype"])
